@@ -179,6 +179,8 @@ func corpusCrud() []*modSpec {
 	return []*modSpec{
 		mk("crud-basic", "package models\n\nimport \"database/sql\"\n\ntype IdUser int64\ntype IdPost int64\n\n// gomacro:SQL ADD UNIQUE(Email)\n// gomacro:SQL _SELECT KEY(Name)\ntype User struct {\n\tId IdUser\n\tName string\n\tEmail string\n\tAge sql.NullInt64\n\tp Point\n\tSecret string `gomacro-sql-guard:\"'x'\"`\n}\n\n// gomacro:SQL ADD UNIQUE(IdUser, Title)\ntype Post struct {\n\tTitle string\n\tID IdPost\n\tIdUser IdUser `gomacro-sql-on-delete:\"CASCADE\"`\n\tEditor OptUser `gomacro-sql-foreign:\"User\"`\n\tWhere Point\n\tBody Payload\n\tTags Strings\n}\n\n// gomacro:SQL ADD UNIQUE(IdPost)\n// gomacro:SQL _SELECT KEY(IdUser, IdPost)\ntype Like struct {\n\tIdUser IdUser\n\tIdPost IdPost\n\tBy OptUser `gomacro-sql-foreign:\"User\"`\n\tStars int\n}\n",
 			modFile{"ids.go", "package models\n\ntype OptUser struct {\n\tValid bool\n\tId IdUser\n}\n"}),
+		mk("crud-struct-columns", "package models\n\ntype IdParcel int64\n\ntype Parcel struct {\n\tId IdParcel\n\tName string\n\tLabel Sticker\n\tAt Position\n\tTags Words\n}\n",
+			modFile{"types.go", "package models\n\ntype Kind string\n\nconst (\n\tFragile Kind = \"fragile\"\n\tHeavy Kind = \"heavy\"\n)\n\ntype Grade int\n\nconst (\n\tGradeLow Grade = iota\n\tGradeHigh\n)\n\n// an integer and a string enum: stored as JSON\ntype Sticker struct {\n\tWeight int\n\tKind Kind\n}\n\n// integers and an integer enum: a composite type\ntype Position struct {\n\tX int\n\tY int\n\tL Grade\n}\n\ntype Words []string\n"}),
 		withClass(mk("crud-single-column", "package models\n\ntype IdTag int64\n\ntype Tag struct {\n\tId IdTag\n\tName string\n}\n"), "update-single-column-row"),
 		withClass(mk("crud-id-only", "package models\n\ntype IdCounter int64\n\ntype Counter struct {\n\tId IdCounter\n}\n"), "table-with-only-an-id"),
 		withClass(mk("crud-link-without-key", "package models\n\ntype Setting struct {\n\tName string\n\tValue string\n}\n"), "link-table-without-foreign-key"),
@@ -521,6 +523,8 @@ func runC05(e *env) {
 		if o.LoadErr != "" {
 			e.m.count("load_error")
 			e.m.sampleErr(spec.Name + ": " + o.LoadErr)
+			// an input of the harness that is not a well-typed package is a defect of the harness, not a silent skip
+			e.m.fail(oracleFailure{What: "the input module " + spec.Name + " does not load (harness input not well-typed): " + o.LoadErr, Input: spec, NoInput: true})
 			continue
 		}
 		if o.Outcome != "ok" {
